@@ -5,6 +5,8 @@ pub mod c01;
 pub mod c04;
 pub mod c08;
 pub mod c09;
+pub mod c10;
+pub mod c11;
 pub mod c13;
 pub mod c14;
 pub mod c16;
@@ -16,6 +18,8 @@ pub fn run(prop: &str, ctx: &Ctx, r: &mut Report) -> bool {
 		"C04" => c04::run(ctx, r),
 		"C08" => c08::run(ctx, r),
 		"C09" => c09::run(ctx, r),
+		"C10" => c10::run(ctx, r),
+		"C11" => c11::run(ctx, r),
 		"C13" => c13::run(ctx, r),
 		"C14" => c14::run(ctx, r),
 		"C16" => c16::run(ctx, r),
